@@ -34,3 +34,9 @@ Definition py_shr (a y : Z) : result Z := py_rshift a y.
    translated code and are reported as an error) *)
 Definition py_nth {A} (l : list A) (k : Z) : result A :=
   if k <? 0 then Err EOther else match nth_error l (Z.to_nat k) with Some x => Ok x | None => Err EIndex end.
+
+(* ---- size facts of an SSZ type class, as the class methods report them (harness/translate_facts.py) ---- *)
+Record facts := { fx : bool; mn : Z; mx : Z }.
+(* min(...) / max(...) of a list of ints (Python raises on an empty list; a Union has at least one option) *)
+Definition py_min (l : list Z) : Z := match l with nil => 0 | cons x r => fold_left Z.min r x end.
+Definition py_max (l : list Z) : Z := match l with nil => 0 | cons x r => fold_left Z.max r x end.
